@@ -241,10 +241,20 @@ def fuzz_jobs(tier: str, seed: int) -> List[Any]:
 def run_fuzz(job: Any, stats: Stats) -> None:
     k, corpus_kind, secs, seed = job
     deps = os.path.join(env.VERIF_ROOT, ".deps")
-    if not os.path.isdir(os.path.join(deps, "atheris")):
-        r = subprocess.run([sys.executable, "-m", "pip", "install", "--no-index", "--find-links", "/opt/veriftools/wheels", "--target", deps, "atheris"], stdout=subprocess.PIPE, stderr=subprocess.STDOUT, text=True)
-        if not os.path.isdir(os.path.join(deps, "atheris")):
-            raise RuntimeError("atheris cannot be installed offline: " + r.stdout[-500:])
+    marker = os.path.join(deps, ".atheris-installed")
+    if not os.path.exists(marker):
+        # several fuzz shards start at once: one of them installs, the others wait for it (setup.sh normally did it already)
+        import fcntl
+
+        os.makedirs(deps, exist_ok=True)
+        with open(os.path.join(deps, ".install.lock"), "w") as lock:
+            fcntl.flock(lock, fcntl.LOCK_EX)
+            if not os.path.exists(marker):
+                if not os.path.isdir(os.path.join(deps, "atheris")):
+                    r = subprocess.run([sys.executable, "-m", "pip", "install", "--no-index", "--find-links", "/opt/veriftools/wheels", "--target", deps, "atheris"], stdout=subprocess.PIPE, stderr=subprocess.STDOUT, text=True)
+                    if not os.path.isdir(os.path.join(deps, "atheris")):
+                        raise RuntimeError("atheris cannot be installed offline: " + r.stdout[-500:])
+                open(marker, "w").close()
     work = env.scratch_dir("fuzz")
     corpus = os.path.join(work, "corpus")
     crashes = os.path.join(work, "crashes")
